@@ -4,6 +4,7 @@ package main
 
 import (
 	"fmt"
+	"math"
 
 	"github.com/AsaiYusuke/jsonpath"
 )
@@ -56,7 +57,7 @@ func modelConfig(log *callLog, accessor bool) jsonpath.Config {
 			case "ferr":
 				return nil, fmt.Errorf("boom-%s", name)
 			case "fodd":
-				if f, ok := numOf(v); ok && int64(f)%2 == 1 {
+				if f, ok := numOf(v); ok && int64(math.Floor(f))%2 != 0 { // as ApplyFF: floor(value) is odd
 					return nil, fmt.Errorf("boom-%s", name)
 				}
 			case "fid":
